@@ -1,7 +1,7 @@
 #!/usr/bin/env python3
 """Confirms an independently written property-breaking change and runs our check on it.
 
-usage: seeded.py <ID> <A|B> [--src /tmp/sa_out] [--runs N]
+usage: seeded.py <ID> <A|B> [--src /tmp/sa_out] [--runs N] [--tag 2]
 
 Steps, all in a scratch worktree of /repo's HEAD that is removed afterwards:
   1. demonstration on the unchanged tree           -> must pass
@@ -26,12 +26,15 @@ def main():
     pid, x = sys.argv[1], sys.argv[2]
     src = "/tmp/sa_out"
     runs = None
+    tag = ""
     a = sys.argv[3:]
     while a:
         if a[0] == "--src":
             src = a[1]; a = a[2:]
         elif a[0] == "--runs":
             runs = a[1]; a = a[2:]
+        elif a[0] == "--tag":
+            tag = a[1]; a = a[2:]
         else:
             a = a[1:]
     sdir = os.path.join(src, pid)
@@ -65,7 +68,7 @@ def main():
             for c in cps:
                 parts = c.split()
                 srcs, dst = parts[1:-1], parts[-1]
-                dst = re.sub(r"^(/tmp/sa_%s|\$W|\$REPO)/?" % pid, "", dst)
+                dst = re.sub(r"^(/tmp/s[ab]_%s|\$W|\$REPO)/?" % pid, "", dst)
                 d = os.path.join(w, dst)
                 for s_ in srcs:
                     import glob
@@ -132,7 +135,7 @@ def main():
     except Exception:
         pass
     meta["needs_to_manifest_and_notes"] = "see notes.md (written by the author of the change)"
-    out = "/verif/seeded/%s-%s" % (pid, x)
+    out = "/verif/seeded/%s-%s%s" % (pid, x, tag)
     shutil.rmtree(out, ignore_errors=True)
     os.makedirs(out)
     shutil.copy(patch, os.path.join(out, "patch.diff"))
